@@ -302,6 +302,10 @@ class Probe:
                 return bool(self.ev(e["guard"], dict_view(env, b))) if e.get("guard") is not None else True
             if e["name"].split("::")[-1] in ("debug", "trace", "info", "warn", "error"):
                 return ()
+            if e["name"] == "vec" and "args" in e:
+                return [self.ev(a, env) for a in e["args"]]
+            if e["name"] == "vec" and not e.get("raw"):
+                return []
             if e["name"] in ("unreachable", "panic", "todo", "unimplemented"):
                 raise Panic("%s!() reached" % e["name"])
             raise NoEval("macro %s" % e["name"])
@@ -387,6 +391,10 @@ class Probe:
                 return self.invoke(fn, None, args)
             if fv[1]["segs"][-2:] == ["String", "from"] and len(args) == 1:
                 return args[0]
+            if fv[1]["segs"][-2:] in (["Vec", "new"], ["Vec", "default"]) and not args:
+                return []
+            if fv[1]["segs"][-2:] in (["String", "new"], ["String", "default"]) and not args:
+                return ""
             if len(fv[1]["segs"]) >= 2 and fv[1]["segs"][-1][:1].isupper():
                 return ("enum", "::".join(fv[1]["segs"][-2:]), list(args))
         if isinstance(fv, tuple) and fv and fv[0] == "enum" and not fv[2]:
@@ -447,6 +455,10 @@ class Probe:
             return (segs[0].lower(), args[0])
         if segs[-2:] in (["String", "new"], ["String", "default"]) and not args:
             return ""
+        if segs[-2:] in (["Vec", "new"], ["Vec", "default"]) and not args:
+            return []
+        if segs[-2:] == ["Vec", "with_capacity"] and len(args) == 1:
+            return []
         if segs[-2:] == ["String", "from"] and len(args) == 1:
             return args[0]
         if segs[-1] == "default" and not args and len(segs) == 2:
@@ -616,6 +628,26 @@ class Probe:
             return self.apply(self.ev(e["args"][1], env), [recv[1]])
         if m == "unwrap_or_default":
             return "" if recv is None else recv[1]
+        if isinstance(recv, list) and m in ("push", "extend", "append", "insert", "pop", "clear", "is_empty"):
+            if m == "push":
+                recv.append(self.ev(e["args"][0], env))
+                return ()
+            if m in ("extend", "append"):
+                a = self.ev(e["args"][0], env)
+                if not isinstance(a, list):
+                    raise NoEval("extend with %r" % (a,))
+                recv.extend(a)
+                if m == "append":
+                    del a[:]
+                return ()
+            if m == "clear":
+                del recv[:]
+                return ()
+            if m == "is_empty":
+                return not recv
+            raise NoEval("method %s" % m)
+        if isinstance(recv, str) and m == "len" and not e["args"]:
+            return len(recv.encode("utf-8"))
         if isinstance(recv, list) and m in ("find", "any", "all", "position", "contains", "len", "first", "last", "rev") :
             if m == "len":
                 return len(recv)
